@@ -167,6 +167,7 @@ pub fn simple_modes_profile() -> Profile {
     p.min_local_funcs = 1;
     p.ops = w(&[("inject", 10), ("add_import_func", 1), ("build_func", 1)]);
     p.modes = SIMPLE_MODES.to_vec();
+    p.final_end_after = true;
     p.mean_ops = 5;
     p
 }
@@ -219,6 +220,18 @@ pub fn special_profile() -> Profile {
     p.modes = ALL_MODES.to_vec();
     p.misapplied = true;
     p.mean_ops = 4;
+    p
+}
+
+/// modules parsed without any local function whose only bodies come from replacing imports, then
+/// instrumented with every mode (counters that only parsing / add_local_func maintain stay at zero)
+pub fn special_replaced_profile() -> Profile {
+    let mut p = special_profile();
+    p.name = "special-on-replaced-imports";
+    p.min_local_funcs = 0;
+    p.max_local_funcs = 0;
+    p.max_imp_funcs = 4;
+    p.ops = w(&[("replace_import", 6), ("inject", 10), ("add_import_func", 1)]);
     p
 }
 
@@ -423,7 +436,7 @@ pub fn check_def(id: &str) -> Option<CheckDef> {
         "C14" => d("C14", vec![locals_profile()]),
         "C15" => d("C15", vec![simple_modes_profile()]),
         "C21" => d("C21", vec![block_alt_profile(), region_profile()]),
-        "C22" => d("C22", vec![special_profile(), special_profile(), region_profile()]),
+        "C22" => d("C22", vec![special_profile(), special_profile(), region_profile(), special_replaced_profile()]),
         "C16" | "C17" | "C18" | "C19" | "C20" => CheckDef {
             quick_runs: 60_000,
             thorough_runs: 2_000_000,
